@@ -18,7 +18,7 @@ import (
 
 func init() {
 	register("C08", "sched", &PartDef{
-		Rule:  "writer scripts {W1 F W1 F C; W2 F W2 C; W1 F A W1 C; W1 F W1 F W1 (not closed); W1 F W1 A (not closed); W65280 W65280 C stored} x wc 1..3, all schedules up to the preemption bound (2 quick, 3 thorough) with HB state caching (full blocks also without caching): output bytes must be identical in every schedule, well-formed BGZF at every device write, EOF marker present iff the script closed the writer.",
+		Rule:  "writer scripts {W1 F W1 F C; W2 F W2 C; W1 F A W1 C; W1 F W1 F W1 (not closed); W1 F W1 A (not closed); W65280 W65280 C stored} x wc 1..3, all schedules up to the preemption bound (2 quick, 3 thorough) with HB state caching (full blocks also without caching): output bytes must be identical in every schedule, well-formed BGZF at every device write, EOF marker present iff the script closed the writer; scripts {W1 C; W1 F W1 C} x wc 1,2 with a persistent or one-shot fault on each underlying Write in turn (the last is the marker's): the stream ends with the marker iff Close returned nil.",
 		Gen:   c08gen,
 		Build: writerBuild,
 	})
@@ -52,6 +52,22 @@ func c08gen(tier string) []Spec {
 			sp.NoCache = true
 			sp.Bound = 1
 			specs = append(specs, sp)
+		}
+	}
+	// the marker rule under a failing device: a fault on each underlying Write in turn
+	// (the last one is the write of the marker itself); Close()==nil iff the marker is there
+	for wc := 1; wc <= 2; wc++ {
+		for _, sc := range []struct {
+			s string
+			n int
+		}{{"W1 C", 2}, {"W1 F W1 C", 3}} {
+			for k := 1; k <= sc.n; k++ {
+				for _, once := range []bool{false, true} {
+					sp := wspec(sc.s, wc, 1, bound, faultio.Fault{At: k, Once: once}, "c08")
+					sp.BudgetS = 240
+					specs = append(specs, sp)
+				}
+			}
 		}
 	}
 	return specs
